@@ -3,8 +3,8 @@
 //
 // Three case kinds (T = int; a value is key*1000 + tag, the tag makes ties distinguishable):
 //
-//	@ C04 slice <cmp> v…     Slice[int] from FromSlice          ops: push pop peek len rm fix set popall
-//	@ C04 heap <cmp>         two Heap[int] A, B from New(0,·)   ops: init push pop peek len rm fix setv popall
+//	@ C04 slice <cmp> v…     Slice[int] from FromSlice          ops: push pop peek len rm fix set setfix popall
+//	@ C04 heap <cmp>         two Heap[int] A, B from New(0,·)   ops: init initc push pushe pop peek len rm fix setv setfix popall
 //	@ C04 generic <cmp> v…   generic functions on a recording container   ops: init push pop rm fix set
 //
 // After every operation both sides print the whole observable state: Slice.Values / Len() of
@@ -47,18 +47,24 @@ func init() {
 		NonTrivial: func(c core.Case, out []string) bool {
 			n := 0
 			for _, l := range c.Lines[1:] {
-				if strings.HasPrefix(l, "rm ") || strings.HasPrefix(l, "fix ") {
+				if strings.HasPrefix(l, "rm ") || strings.HasPrefix(l, "fix ") || strings.HasPrefix(l, "setfix ") {
 					n++
 				}
 			}
 			return n >= 1 && len(c.Lines) >= 6
 		},
-		Rule:     "op sequences on Slice[int] / two Heap[int] with element handles / the generic Init/Push/Pop/Remove/Fix on a recording container; keys from {0..5} (many ties, tags make equal keys distinguishable), comparators lt/gt/key/rkey; handle ops 85% live, 10% stale, 5% of the other heap; indices -1..len; non-trivial = at least 5 ops including a Remove or Fix; distinct by hash of the op list",
+		Rule: "op sequences on Slice[int] / two Heap[int] with element handles (incl. PushElement of a detached handle into either heap, Value write + Fix) / the generic Init/Push/Pop/Remove/Fix on a recording container; " +
+			"keys from {0..5} (many ties, tags make equal keys distinguishable), in part all keys equal / two keys / 0..60; 0..9 elements, one case in ten 10..40; comparators lt/gt/key/rkey; " +
+			"handle ops 85% live (aimed at the last slot, the root, removals whose substitute moves up), 10% stale (popped/removed/discarded by Init), 5% of the other heap; indices -1..len; " +
+			"non-trivial = at least 5 ops including a Remove or Fix; distinct by hash of the op list",
 		Classify: classify,
 		Parallel: true,
+		Extras: []core.Extra{
+			{Name: "popall-early-stop", Run: extraEarlyStop},
+		},
 		Assumptions: []string{
 			"Go int treated as unbounded (the `j1 < 0` overflow guard of down is never taken)",
-			"PushElement is only reached through Push (an element already in a heap is undocumented misuse)",
+			"PushElement is reached through Push and with handles that are in no heap (popped / removed / discarded by Init); an element still in a heap is undocumented misuse",
 			"the capacity region of Slice.Values beyond len (zeroed by Pop/Remove) is not observed",
 			"generic functions: an index outside the container panics inside the caller's Swap/Less (container/heap semantics); the oracle does not judge those calls",
 		},
@@ -117,21 +123,118 @@ func classify(c core.Case, out []string) []string {
 	if h := core.Toks(c.Lines[0]); len(h) >= 4 {
 		ls = append(ls, "cmp:"+h[3])
 	}
+	if k == "heap" {
+		return append(ls, classifyHeap(c, out)...)
+	}
+	if k != "slice" && k != "generic" {
+		return ls
+	}
+	// slice / generic: the state is the printed array; values carry distinct tags, so the
+	// element that a Remove / Fix moved can be followed by its value
+	arrOf := func(l string) ([]int, bool) {
+		j := strings.LastIndex(l, "[")
+		if j < 0 {
+			return nil, false
+		}
+		return parseInts(l[j:])
+	}
+	find := func(v []int, x int) int {
+		for i, y := range v {
+			if y == x {
+				return i
+			}
+		}
+		return -1
+	}
+	move := func(before, after int) string {
+		switch {
+		case after < 0:
+			return ":?"
+		case after < before:
+			return ":up"
+		case after > before:
+			return ":down"
+		}
+		return ":stay"
+	}
+	p := k[:1] + ":"
+	prev, _ := arrOf(out[0])
+	maxLen := len(prev)
+	ls = append(ls, p+"n0="+sizeBucket(len(prev)))
 	for i := 1; i < len(c.Lines) && i < len(out); i++ {
 		t := core.Toks(c.Lines[i])
 		if len(t) == 0 {
 			continue
 		}
-		lab := k[:1] + ":" + t[0]
-		switch {
-		case out[i] == "panic" || out[i] == "dead" || out[i] == "bad-op":
-			lab += ":" + out[i]
-		case (t[0] == "rm" || t[0] == "fix") && tail(out[i]) == tail(out[i-1]):
-			lab += ":unchanged"
+		lab := p + t[0]
+		if out[i] == "panic" || out[i] == "dead" || out[i] == "bad-op" {
+			ls = append(ls, lab+":"+out[i])
+			continue
+		}
+		cur, ok := arrOf(out[i])
+		if !ok {
+			ls = append(ls, lab)
+			continue
+		}
+		n := len(prev)
+		switch t[0] {
+		case "rm", "fix":
+			if tail(out[i]) == tail(out[i-1]) {
+				lab += ":unchanged"
+			}
+			ix, ok := atoi(t[len(t)-1])
+			if !ok {
+				break
+			}
+			if ix < 0 || ix >= n {
+				ls = append(ls, lab+":range")
+				break
+			}
+			if t[0] == "fix" {
+				ls = append(ls, p+"fix"+move(ix, find(cur, prev[ix])))
+				break
+			}
+			if n == 1 {
+				ls = append(ls, p+"rm:single")
+			}
+			if ix == n-1 {
+				ls = append(ls, p+"rm:last")
+			} else {
+				ls = append(ls, p+"rm"+move(ix, find(cur, prev[n-1])))
+			}
+		case "setfix":
+			ix, ok1 := atoi(t[1])
+			v, ok2 := atoi(t[len(t)-1])
+			if ok1 && ok2 && ix >= 0 && ix < n {
+				ls = append(ls, p+"setfix"+move(ix, find(cur, v)))
+			}
+		case "pop":
+			switch n {
+			case 0:
+				ls = append(ls, p+"pop:empty")
+			case 1:
+				ls = append(ls, p+"pop:single")
+			}
+		case "peek":
+			if n == 0 {
+				ls = append(ls, p+"peek:empty")
+			}
+		case "push":
+			if len(cur) == n+1 {
+				if x, ok := atoi(t[1]); ok {
+					ls = append(ls, p+"push"+move(n, find(cur, x)))
+				}
+			}
+		case "popall":
+			ls = append(ls, p+"popall:n="+sizeBucket(n))
 		}
 		ls = append(ls, lab)
+		prev = cur
+		if len(cur) > maxLen {
+			maxLen = len(cur)
+		}
 	}
-	return ls
+	return append(ls, p+"maxlen="+sizeBucket(maxLen))
 }
 
 // tail is the state part of an output line (after the result token(s)).
@@ -226,6 +329,22 @@ func corpus() []core.Case {
 		{Lines: []string{"@ C04 heap rkey", "init A 1000 2001 3002 4003 5004 1005 2006", "init B 1007 1008", "rm A 3", "rm A 0", "rm B 0", "setv 6 9006", "fix A 6", "setv 5 0", "fix A 5", "popall A", "popall B"}},
 		// finding F13: Init on a non-empty heap must detach the elements it discards
 		{Lines: []string{"@ C04 heap lt", "init A 10 20 30", "peek A", "init A 1 2 3", "rm A 0", "len A", "popall A"}},
+		// a popped handle is re-pushed into the OTHER heap: the old owner ignores it, the new one
+		// removes / fixes / pops by it; then back again
+		{Lines: []string{"@ C04 heap lt", "push A 5", "push A 3", "push A 7", "pop A", "pushe B 1", "rm A 1", "fix A 1", "len B", "setfix B 1 9", "push B 4", "pop B", "rm B 1", "rm B 1", "pushe A 1", "setfix A 1 1", "peek A", "pop A", "rm A 1", "pushe A 1", "pushe B 3", "popall A", "popall B"}},
+		// Remove: substitute travels up (index 3, last = 4 under parent 10), the last slot, a heap of one; Pop of a heap of one
+		{Lines: []string{"@ C04 heap lt", "init A 1 10 2 11 12 3 4", "rm A 3", "rm A 5", "rm A 0", "pop A", "pop A", "rm A 4", "len A", "pop A", "pop A", "push A 8", "rm A 7", "rm A 7", "peek A"}},
+		// Init over a non-empty heap while B keeps its handles; handles the Init discarded are stale, can be re-pushed
+		{Lines: []string{"@ C04 heap key", "init A 1000 2001 3002", "init B 5003 6004", "init A 1005 2006 3007", "rm A 0", "fix A 1", "setfix A 2 8", "pushe A 2", "rm B 3", "pop B", "pushe B 0", "init B", "rm B 0", "fix B 4", "len A", "popall A", "popall B"}},
+		// Init with another comparator than New got / than the previous Init; B keeps the header's
+		{Lines: []string{"@ C04 heap lt", "init A 1 2 3 4 5", "push B 7", "push B 6", "initc A gt 1 2 3 4 5 6", "peek A", "push A 9", "pop A", "peek B", "setfix A 3 0", "rm A 5", "pushe B 5", "peek B", "initc A rkey 1000 2001 2002 7003", "pop A", "pop A", "init A 3 1 2", "pop A", "popall A", "popall B"}},
+		// all keys equal (nothing ever has to move), 20 elements
+		{Lines: []string{"@ C04 heap lt", "init A 5 5 5 5 5 5 5 5 5 5 5 5 5 5 5 5 5 5 5 5", "rm A 7", "rm A 19", "pop A", "setfix A 3 5", "pushe A 7", "rm A 0", "fix A 12", "len A", "popall A"}},
+		// depth 5: the root sinks to a leaf, a leaf climbs to the root, removal in the middle
+		{Lines: []string{"@ C04 heap gt", "init A 1 2 3 4 5 6 7 8 9 10 11 12 13 14 15 16 17 18 19 20 21 22", "peek A", "setfix A 21 0", "setfix A 0 99", "rm A 10", "rm A 4", "pop A", "setfix A 15 50", "rm A 15", "pop A", "pop A", "len A", "popall A"}},
+		{Lines: []string{"@ C04 slice lt 1 10 2 11 12 3 4", "rm 3", "rm 5", "rm 0", "pop", "pop", "pop", "len", "pop", "pop", "push 8", "rm 0", "rm 0"}},
+		{Lines: []string{"@ C04 slice gt 1 2 3 4 5 6 7 8 9 10 11 12 13 14 15 16 17 18 19 20 21 22", "set 0 0", "fix 0", "set 21 99", "fix 21", "rm 10", "rm 4", "pop", "setfix 0 -5", "setfix 18 77", "setfix 3 8", "set 2 1000", "setfix 2 15", "popall", "push 1", "setfix 0 2", "pop"}},
+		{Lines: []string{"@ C04 generic lt 1 10 2 11 12 3 4", "init", "rm 3", "rm 5", "rm 0", "pop", "pop", "pop", "pop", "push 8", "rm 0"}},
 		{Lines: []string{"@ C04 generic lt 5 3 8 1", "init", "push 0", "pop", "rm 1", "set 0 9", "fix 0", "fix -1", "rm 7", "pop"}},
 		{Lines: []string{"@ C04 generic key 3000 3001 1002 1003 2004 2005 1006", "init", "rm 6", "rm 0", "rm 2", "set 1 5", "fix 1", "pop", "pop", "pop", "pop", "pop"}},
 	}
